@@ -224,6 +224,7 @@ class Manager:
         self._executing_thread = None
         self._flushing_thread = None
         self._running = False
+        self._exit_code = None
         self.__thread = None
         self.__process = None
         self._lock = RLock()
@@ -790,7 +791,13 @@ class Manager:
                 self.tick()
 
         if code is not None:
-            raise SystemExit(code)
+            # run() raises SystemExit(code) once everything has been
+            # processed.  Raising here as well would abort the flush that is
+            # dispatching the calling handler, so only do that for callers
+            # outside the loop.
+            self._exit_code = code
+            if self.root._executing_thread is not current_thread():
+                raise SystemExit(code)
 
     def processTask(self, event, task, parent=None):  # noqa
         # TODO: C901: This has a high McCabe complexity score of 16.
@@ -976,3 +983,7 @@ class Manager:
         self.root._executing_thread = None
         self.__thread = None
         self.__process = None
+
+        code, self._exit_code = self._exit_code, None
+        if code is not None:
+            raise SystemExit(code)
